@@ -22,6 +22,7 @@ import (
 	"io"
 	"io/fs"
 	"os"
+	"os/signal"
 	"path/filepath"
 	"reflect"
 	"runtime"
@@ -91,6 +92,9 @@ type verifDisk struct {
 	faultAt int // index of the operation that fails (-1: none)
 	faulted bool
 	created int // files created by the run
+	// sizeLimit >= 0: the process's file size limit (RLIMIT_FSIZE, SIGXFSZ ignored): a write(2) that
+	// would make a file longer than this is cut at the limit, and fails with EFBIG when nothing fits
+	sizeLimit int
 }
 
 func (d *verifDisk) lookup(path string) *verifInode {
@@ -111,6 +115,12 @@ func (d *verifDisk) unlink(path string) {
 	}
 	d.entries = n
 }
+
+// plainWriteFault: is a write through this handle one of the numbered fault positions? Only the
+// writes of gzip members are: a failing or short write(2) of a plain output file is a fault the
+// kernel can be made to produce (file size limit), it is injected - in the model and natively, at
+// the same write - by limitFileSize (VerifC19_FileSizeLimit) and not by number.
+func (d *verifDisk) plainWriteFault(h *verifHandle) bool { return verifCur.cfg.gzip }
 
 // fault reports whether this (fallible) operation is the one chosen to fail.
 func (d *verifDisk) fault() bool {
@@ -183,7 +193,22 @@ func verifFileWrite(f *os.File, b []byte) (int, error) {
 	if h.void {
 		return n, nil
 	}
-	if d.fault() {
+	if d.sizeLimit >= 0 {
+		// what the kernel does at the file size limit, seen through os.File.Write (which repeats a
+		// short write(2) until everything is written or an error comes back)
+		at := h.pos
+		if h.app {
+			at = len(h.ino.data)
+		}
+		if at+n > d.sizeLimit {
+			n = d.sizeLimit - at
+			if n < 0 {
+				n = 0
+			}
+			d.faulted = true
+			err = &os.PathError{Op: "write", Path: h.path, Err: syscall.EFBIG}
+		}
+	} else if d.plainWriteFault(h) && d.fault() {
 		// a failing write may have written part of the data
 		if n > 0 {
 			n--
@@ -451,6 +476,14 @@ func verifConsumerStop(c *nsq.Consumer) {
 		if r.stopCalls[c] == 1 {
 			close(c.StopChan)
 		}
+		return
+	}
+	if r.termClosed && r.stopRequested > 1 {
+		// termChan is closed: the router comes back here in every iteration until StopChan is
+		// closed as well. The first call returns at once (one whole SIGTERM iteration); every
+		// later one returns when the harness lets it (release), so that "the router has gone round
+		// once more" is an event of the harness like the others and the model run is finite.
+		<-r.stopGate
 	}
 }
 func verifConsumerStarved(c *nsq.Consumer) bool { return verifCur.cfg.starved }
@@ -523,6 +556,14 @@ type verifRun struct {
 	stopClosesAtOnce bool
 	stopClosed       bool
 	stopCalls        map[*nsq.Consumer]int
+	termClosed       bool     // SIGTERM has been delivered: termChan is closed
+	msgsAtTerm       int      // messages handed over before that
+	lateFin          int      // messages handed over after SIGTERM and finished
+	stopGate         chan int // symbolic runs: see verifConsumerStop
+	limited          bool     // a file size limit is in force
+	limitBefore      int      // event index before which the limit is set (-1: never)
+	limitRoom        int
+	oldFsize         syscall.Rlimit
 	loggers          []*FileLogger
 	routerExited     bool
 	exitedProcess    bool
@@ -547,12 +588,12 @@ func verifNopLog(lvl lg.LogLevel, f string, args ...interface{}) {}
 // verifNewRun builds the options, the environment and a FileLogger exactly as NewFileLogger
 // does, minus the network (the consumer is never connected).
 func verifNewRun(cfg verifCfg) *verifRun {
-	r := &verifRun{cfg: cfg, tickC: make(chan time.Time), tickStep: 700 * time.Millisecond, stopCalls: map[*nsq.Consumer]int{}, breakBefore: -1}
+	r := &verifRun{cfg: cfg, tickC: make(chan time.Time), tickStep: 700 * time.Millisecond, stopCalls: map[*nsq.Consumer]int{}, breakBefore: -1, limitBefore: -1, stopGate: make(chan int)}
 	verifCur = r
 	verifrt.FreeRun() // native replay: real goroutines, the harness waits for them itself (settle)
 	if verifrt.Symbolic() {
 		verifInstallStubs()
-		r.disk = &verifDisk{fds: map[*os.File]*verifHandle{}, gzs: map[*gzip.Writer]*verifGz{}, faultAt: -1}
+		r.disk = &verifDisk{fds: map[*os.File]*verifHandle{}, gzs: map[*gzip.Writer]*verifGz{}, faultAt: -1, sizeLimit: -1}
 		r.out = "/o"
 		r.work = "/o"
 		if cfg.workDir {
@@ -698,6 +739,45 @@ func (r *verifRun) breakOpenFile(void bool) bool {
 	}
 	defer syscall.Close(null)
 	return syscall.Dup3(null, int(f.out.Fd()), 0) == nil
+}
+
+// limitFileSize: from now on no file can grow beyond (length of the logger's open file, 0 if
+// none is open) + room bytes: a full disk, an exceeded quota, the file size limit. A write(2) that
+// crosses the limit is cut short there, one that starts at the limit fails (EFBIG) - so os.File.Write
+// reports a short count and an error - while fsync, close, link and unlink keep working.
+// Symbolic runs: verifDisk.sizeLimit. Natively: RLIMIT_FSIZE of the test process with SIGXFSZ
+// ignored, i.e. the real kernel fails the same write at the same byte.
+func (r *verifRun) limitFileSize(room int) {
+	f := r.f
+	size := 0
+	if verifrt.Symbolic() {
+		if f.out != nil {
+			if h := r.disk.fds[f.out]; h != nil && !h.closed {
+				size = len(h.ino.data)
+			}
+		}
+		r.disk.sizeLimit = size + room
+		r.limited = true
+		return
+	}
+	if f.out != nil {
+		if fi, err := f.out.Stat(); err == nil {
+			size = int(fi.Size())
+		}
+	}
+	verifHasDirtyPages(filepath.Join(r.out, "verif-probe-only")) // (the cachestat probe writes a file: run it before the limit)
+	signal.Ignore(syscall.SIGXFSZ)
+	if err := syscall.Getrlimit(syscall.RLIMIT_FSIZE, &r.oldFsize); err != nil {
+		fmt.Printf("VERIF-NOTE getrlimit: %v\n", err)
+		return
+	}
+	lim := r.oldFsize
+	lim.Cur = uint64(size + room)
+	if err := syscall.Setrlimit(syscall.RLIMIT_FSIZE, &lim); err != nil {
+		fmt.Printf("VERIF-NOTE setrlimit: %v\n", err)
+		return
+	}
+	r.limited = true
 }
 
 func (r *verifRun) exists(path string) bool {
@@ -954,6 +1034,9 @@ func (d *verifDelegate) OnFinish(m *nsq.Message) {
 	verifrt.Assert(r.recordIn(files, r.recs[idx], false), "fin-only-after-body-and-newline-are-in-a-readable-file")
 	verifrt.Assert(r.recordIn(files, r.recs[idx], true), "fin-only-after-fsync")
 	r.fin[idx] = true
+	if r.termClosed && idx >= r.msgsAtTerm {
+		r.lateFin++
+	}
 	r.nFin++
 	// (witness bookkeeping) the message was written into a file that has been rotated away since
 	if r.f != nil && r.f.out != nil {
@@ -995,6 +1078,9 @@ func (r *verifRun) settle() {
 		return
 	}
 	deadline := verifWallClock().Add(10 * time.Second)
+	if r.termClosed {
+		deadline = verifWallClock().Add(3 * time.Second)
+	}
 	for verifWallClock().Before(deadline) {
 		if r.routerExited {
 			return
@@ -1005,6 +1091,14 @@ func (r *verifRun) settle() {
 		}
 		if idle && verifRouterParked() {
 			return
+		}
+		if idle && r.termClosed && !r.stopClosesAtOnce && r.nFin == len(r.msgs) {
+			// termChan is closed: the router never parks again, it goes round its SIGTERM branch;
+			// it has come to rest when everything handed to it has been written, synced and finished
+			time.Sleep(2 * time.Millisecond)
+			if r.nFin == len(r.msgs) {
+				return
+			}
 		}
 		time.Sleep(200 * time.Microsecond)
 	}
@@ -1087,9 +1181,14 @@ func (r *verifRun) deliver(ev int, body []byte) {
 	case verifEvHup:
 		r.f.hupChan <- true
 	case verifEvTerm:
-		// topic_discoverer closes termChan; every later iteration of the router takes that
-		// branch again. One delivery here = one such iteration.
-		r.f.termChan <- true
+		// SIGTERM / SIGINT: topic_discoverer closes termChan (and leaves its loop: no SIGHUP is
+		// forwarded afterwards). From now on the router takes that branch in every iteration in
+		// which it does not pick another ready channel, until StopChan is closed; go-nsq goes on
+		// handing the messages it had already received to HandleMessage in the meantime.
+		verifrt.Assume(!r.termClosed)
+		r.termClosed = true
+		r.msgsAtTerm = len(r.msgs)
+		close(r.f.termChan)
 	case verifEvStop:
 		r.stopClosed = true
 		close(r.f.consumer.StopChan)
@@ -1101,9 +1200,40 @@ func (r *verifRun) deliver(ev int, body []byte) {
 		}
 	}
 	r.settle()
+	if r.termClosed && ev != verifEvTerm && ev != verifEvIntrude {
+		r.afterTerm(ev)
+	}
+}
+
+// afterTerm (symbolic runs): termChan is closed and the router is parked inside consumer.Stop()
+// (verifConsumerStop). Let it go round until it has taken what the event gave it: a message is
+// received and written in the first round and synced and finished by the SIGTERM branch of the
+// second; a closed StopChan is seen in the first. (The rounds in which the router picks the closed
+// termChan again before the other ready channel change nothing in its state - its batch is empty
+// after a SIGTERM iteration - so those schedules are cut.) Natively the real router spins through
+// the same iterations on its own and settle() waits for the outcome.
+func (r *verifRun) afterTerm(ev int) {
+	if !verifrt.Symbolic() || r.routerExited || r.exitedProcess {
+		return
+	}
+	rounds := 1
+	if ev == verifEvMsg {
+		rounds = 2
+	}
+	for i := 0; i < rounds && !r.routerExited; i++ {
+		r.stopGate <- 1
+		verifrt.Join()
+		verifrt.Assume(len(r.f.logChan) == 0)
+	}
+	if ev == verifEvStop {
+		verifrt.Assume(r.routerExited)
+	}
 }
 
 func (r *verifRun) cleanup() {
+	if !verifrt.Symbolic() && r.limited {
+		syscall.Setrlimit(syscall.RLIMIT_FSIZE, &r.oldFsize)
+	}
 	if !verifrt.Symbolic() && r.root != "" {
 		os.RemoveAll(r.root)
 	}
